@@ -4,6 +4,7 @@
 -/
 import Pdlv.Lemmas.CxxAgree
 import Pdlv.Lemmas.CxxView
+import Pdlv.Lemmas.CxxSer
 
 namespace Pdlv
 namespace Cxx
@@ -67,6 +68,27 @@ theorem view_no_undefined_behaviour (c : Cfg) (nm : String) (items : Items)
   rw [e] at hq
   rw [hq] at this
   simp [Outcome.isPanic] at this
+
+/-- **C14, serializers.**  For every packet or struct without parent in `Cxx.serWfBody` (no element-size or custom
+    fields, widths up to 64, every condition flag governs exactly one optional field) that meets the hypotheses of
+    C03, both byte orders, and every value the reference assigns an encoding to: the model of the emitted
+    `Builder::Serialize` / `T::Serialize` writes exactly `Ref.encode` — the emitted code checks nothing (a scalar is
+    masked, sizes and counts are shifted in as they are, the flag is read off the optional field), and on the values
+    the reference admits that is the reference's arithmetic. -/
+theorem serializer_writes_reference (c : Cfg) (b : Body) (hs : serWfBody b = true) (hr : refWfBody b = true)
+    (v : Value) (bs : Bytes) (h : Pdlv.encBody { e := c.e, mode := .ideal } b v = .ok bs) :
+    Cxx.encBody c b v = .ok bs ∧ Ref.encode c.e b v = some bs :=
+  ⟨body_ideal_to_cxx c b v bs hs h, encode_ideal_eq_ref c.e b hr v bs h⟩
+
+/-- the emitted serializer has no `SizeOverflow`: `packet P { _size_(_payload_): 4, t: 4, _payload_ }` with a payload
+    of 16 octets — the reference refuses the value, the size spills into the field above it in C++ (outside the
+    model: the outcome is marked unmodelled) -/
+theorem serializer_has_no_size_check :
+    let items : Items := .cons (.chunk [.size "_payload_" 4 0, .scalar "t" 4]) (.cons (.payload (.sized 0)) .nil)
+    let v : Value := .obj [("t", .int 1), ("payload", Value.ofBytes (List.replicate 16 7))]
+    Pdlv.encBody { e := .little, mode := .ideal } (.root "P" items) v = .err .sizeOverflow ∧
+    Cxx.encBody { e := .little } (.root "P" items) v = .panic .badLayout := by
+  refine ⟨by rfl, by rfl⟩
 
 /-- **KF-C14-enum-array**: `enum E : 8 { A = 1 } packet P { a: E[] }` — the view over `05 01` is valid although 5
     is not a value of the closed enum, and the getter returns it -/
